@@ -489,24 +489,20 @@ class DFXPWriter(BaseWriter):
         # We are left with creating tags manually, which is hard to understand
         # and harder to maintain
         if node.start:
-            styles = ''
-
-            content_with_style = _recreate_style(node.content, dfxp)
-            for style, value in list(content_with_style.items()):
-                styles += f' {style}="{_escape_attribute(value)}"'
+            # collected in a dict so that no attribute is written twice
+            attributes = dict(_recreate_style(node.content, dfxp))
             if node.layout_info:
                 region_id, region_attribs = (
                     self.region_creator.get_positioning_info(
                         lang, caption_set, caption, node
                     ))
-                styles += f' region="{_escape_attribute(region_id)}"'
+                attributes['region'] = region_id
                 if self.write_inline_positioning:
-                    styles += ' ' + ' '.join(
-                        [
-                            f'{k_}="{_escape_attribute(v_)}"'
-                            for k_, v_ in list(region_attribs.items())
-                        ]
-                    )
+                    # as on <p>, the region's positioning wins over the style
+                    attributes.update(region_attribs)
+            styles = ''.join(
+                f' {name}="{_escape_attribute(value)}"'
+                for name, value in attributes.items())
 
             if styles:
                 if self.open_span:
